@@ -19,6 +19,14 @@ CONF = {
                 jobs={"quick": [dict(runs=250)] * 6, "thorough": [dict(runs=3000)] * 14},
                 models={"quick": [("MC_Prm", "MC_Prm_quick.cfg")], "thorough": [("MC_Prm", "MC_Prm_thorough.cfg")]},
                 split=None),
+    "C18": dict(driver="sweep", spec="TraceSweep", deps=["SweepRules.tla", "TraceSweep.tla", "MC_Sweep.tla"],
+                jobs={"quick": [dict(runs=2)] * 8, "thorough": [dict(runs=8)] * 14},
+                models={"quick": [("MC_Sweep", "MC_Sweep_quick.cfg")], "thorough": [("MC_Sweep", "MC_Sweep_thorough.cfg")]},
+                split=None),
+    "C19": dict(driver="gsd", spec="TraceGsd", deps=["Gsd.tla", "TraceGsd.tla", "MC_Gsd.tla"],
+                jobs={"quick": [dict(runs=80, fuzz=1500)] * 6, "thorough": [dict(runs=1500, fuzz=20000)] * 14},
+                models={"quick": [("MC_Gsd", "MC_Gsd_quick.cfg")], "thorough": [("MC_Gsd", "MC_Gsd_thorough.cfg")]},
+                split=None),
 }
 
 
